@@ -127,7 +127,7 @@ def vary_history(rng, S, d, variant=None):
     queries and in-place operations (warm caches, moved away and back, scaled and back, complemented in place, refined by split).
     Every step is exact for rational data.  Stale per-object state shows up as a difference from the freshly built `S`."""
     from shapepy import SimpleShape
-    variants = ["fresh", "warm", "move-back", "scale-back", "split", "warm-transform-warm"]
+    variants = ["fresh", "warm", "move-back", "scale-back", "split", "warm-transform-warm", "reflected-in-place", "reflected-in-place"]
     if d[0] == "S":
         variants += ["invert-twice", "complement-inverted-in-place"]
     v = variant or rng.choice(variants)
@@ -155,6 +155,13 @@ def vary_history(rng, S, d, variant=None):
             j.split([rng.randrange(k), rng.randrange(k)], [F(1, 2), F(1, 4)])
     elif v == "invert-twice":
         warm(S); S.invert(); warm(S); S.invert()
+    elif v == "reflected-in-place":
+        # the point-reflected twin is built, used (caches of shape, sub-shapes and curves warm), and reflected onto the description in place:
+        # the history does NOT return through the states it came from (a negative factor swaps the corners of any cached box)
+        from harness.props.c04 import rebuild
+        X = rebuild(map_desc(d, lambda p: (-p[0], -p[1])))
+        warm(X); X.scale(-1, -1)
+        return X, v
     elif v == "complement-inverted-in-place":
         X = simple(d[1][::-1])
         warm(X); X.invert()
